@@ -1040,6 +1040,8 @@ class SymEval:
             except Exception as e:
                 if self.try_depth > 0:
                     raise _PyRaise(type(e).__name__, e)
+                if isinstance(e, ValueError) and ('not aligned' in str(e) or 'could not be broadcast' in str(e) or 'mismatch in its core dimension' in str(e)):
+                    raise WouldRaise('ValueError: %s in %s' % (e, norm(n)))      # numpy refuses these operand shapes for real arrays too
                 raise Opaque('cannot evaluate %s: %s: %s' % (norm(n), type(e).__name__, e))
         raise Opaque('call of %s' % norm(n.func))
 
